@@ -16,17 +16,47 @@ Definition c02_step (m : mode) (st : step) : bool :=
   elementwise_step st ||
   match st, m with SMapBatches _ BHeader, MSeq => true | _, _ => false end.
 
+Definition c02_program (m : mode) (steps : list step) : bool :=
+  forallb (c02_step m) steps && try_only_last steps.
+Definition is_exactly (s : src) (steps : list step) (o : obs) : bool :=
+  match o with OOk rows => rows_eqb rows (denote s steps) | _ => false end.
+
+(* kind "prog"     : in = [src, steps, partitions_or_null]; a trailing try_map is observed as rows
+                     VSome v (Ok v) / VNone (Err).
+   kind "failfast" : in = [src, steps ending in try_map, null], out = collect_fail_fast: the Ok
+                     payloads in order, or ["err","fail_fast"] iff some element fails.
+   kind "branch"   : in = [src, prefix, a, b, partitions_or_null]; the handles base = prefix,
+                     A = prefix ++ a, B = prefix ++ b are all built first (A before B), then base,
+                     B, A are collected in that order; out = [base, B, A].  Each handle must return
+                     what ITS OWN steps denote (branches do not interfere). *)
 Definition check_C02 (kind : string) (input output : J) : verdict :=
   if String.eqb kind "prog" then
     match dec_prog input, dec_obs output with
     | Some (s, steps, m), Some o =>
-        if forallb (c02_step m) steps then
-          let agree := agree_model m s steps o in
-          let prop := match o with
-                      | OOk rows => rows_eqb rows (denote s steps)
-                      | _ => false
-                      end in
+        if c02_program m steps then
+          V (agree_model m s steps o) (is_exactly s steps o) (reorder_changes s steps) false
+        else malformed
+    | _, _ => malformed
+    end
+  else if String.eqb kind "failfast" then
+    match dec_prog input, dec_obs output with
+    | Some (s, steps, MSeq), Some o =>
+        if c02_program MSeq steps && ends_in_try steps then
+          let agree := obs_agree CExact (fail_fast_of (model_outcome MSeq s steps)) o in
+          let prop := obs_agree CExact (fail_fast_of (OOk (denote s steps))) o in
           V agree prop (reorder_changes s steps) false
+        else malformed
+    | _, _ => malformed
+    end
+  else if String.eqb kind "branch" then
+    match dec_branch input, dec_triple output with
+    | Some (s, pre, a, b, m), Some (o0, ob, oa) =>
+        let sa := pre ++ a in
+        let sb := pre ++ b in
+        if c02_program m sa && c02_program m sb && negb (existsb is_try sa) && negb (existsb is_try sb) then
+          V (agree_model m s pre o0 && agree_model m s sb ob && agree_model m s sa oa)
+            (is_exactly s pre o0 && is_exactly s sb ob && is_exactly s sa oa)
+            (reorder_changes s pre || reorder_changes s sa || reorder_changes s sb) false
         else malformed
     | _, _ => malformed
     end
